@@ -439,6 +439,14 @@ def corpus_requests(files):
 ENGINES = ['sqlite', 'sqlite', 'psql', 'duckdb', 'bigquery']
 
 
+def engine_line(r, eng):
+  """SQLite programs sometimes switch the type checker on (it is off by default there and on
+  for psql / duckdb): the checker then runs over the SQLite library too."""
+  if eng == 'sqlite' and r.random() < 0.35:
+    return '@Engine("sqlite", type_checking: true);\n'
+  return '@Engine("%s");\n' % eng
+
+
 def gen_request(r, scratch, idx, kind=None):
   """A generated program (files on disk under scratch) and its compilable predicates."""
   kind = kind or r.choice(['nonrec', 'nonrec', 'rec', 'rec', 'functor', 'imports', 'imports', 'incant',
@@ -454,7 +462,7 @@ def gen_request(r, scratch, idx, kind=None):
       # the same predicate names are grounded in some programs of the pool and plain in others
       names = gen.idb_names(p)
       p['ground'] = sorted(set(r.sample(names, min(len(names), r.choice([1, 2])))))
-    text = '@Engine("%s");\n' % eng + gen.render(p, engine_line=False)
+    text = engine_line(r, eng) + gen.render(p, engine_line=False)
     preds = gen.idb_names(p)
   elif kind in ('rec', 'dialect_rec'):
     p, family, main = gen.gen_recursive(r)
@@ -467,7 +475,7 @@ def gen_request(r, scratch, idx, kind=None):
       p = dict(p, recursive={})
       mode = r.choice(['', ', iterative: true', ', mode: "iterative"', ', mode: "diamond"'])
       extra = '@Recursive(%s, %d%s);\n' % (name, r.choice([d, -1]) if 'diamond' in mode else d, mode)
-    text = '@Engine("%s");\n' % eng + extra + gen.render(p, engine_line=False)
+    text = engine_line(r, eng) + extra + gen.render(p, engine_line=False)
     preds = gen.idb_names(p)
   elif kind == 'udf':
     # typed dialects: compiled functions (-->) and user-defined aggregations over semigroups
@@ -485,8 +493,13 @@ def gen_request(r, scratch, idx, kind=None):
         cols.append('Agg%s{ c :- c in [ToString(i), "%s"] }' % (nm, 'abc'[i]))
     lines.append('Test(i, F(i), H(i, 2)%s) :- i in Range(3);' % ''.join(', ' + c for c in cols))
     lines.append('Other(H(F(i), i)) :- i in Range(2);')
+    # an aggregating predicate read by others (compiled as a WITH table), beside the functions,
+    # which can be asked for by name too
+    lines.append('Cnt(x) += 1 :- i in Range(5), x == i % 2;')
+    lines.append('Tally(x, c, F(c)) :- x in Range(2), c == Cnt(x);')
+    lines.append('Both(x, c + d) :- Tally(x, c, d);')
     text = '\n'.join(lines) + '\n'
-    preds = ['Test', 'Other']
+    preds = r.sample(['Test', 'Other', 'F', 'H', 'Tally', 'Both'], 4)
   elif kind == 'duck_stop':
     # DuckDB: one to three recursive components (independent or stacked), each run to a stop
     # condition or to a depth, in the default (diamond) or the iterative mode
@@ -550,9 +563,10 @@ def gen_request(r, scratch, idx, kind=None):
             'T2(r: {%s: a, %s: b}) :- D(a:, b:);\n' % (f[2], f[3]) +
             'T3(k: a, s? List= {%s: c, %s: b}) distinct :- D(a:, b:, c:);\n' % (f[4], f[5]) +
             'T4(m? ArgMin= b -> a) distinct :- D(a:, b:);\n'
+            'T7(k: a, m? ArgMax= l -> a) distinct :- D(a:, b:), l == [a, a + 1];\n'
             'T5(x: r.%s, y: s) :- T1(r:), T3(k: x0, s:), x0 == r.%s;\n' % (f[0], f[0]) +
             'T6(t: {%s: a, %s: {%s: b}}) :- D(a:, b:);\n' % (f[6], f[7], f[0]))
-    preds = r.sample(['T1', 'T2', 'T3', 'T4', 'T5', 'T6'], 4)
+    preds = r.sample(['T1', 'T2', 'T3', 'T4', 'T5', 'T6', 'T7'], 4)
   elif kind == 'functor':
     n = r.randint(1, 4)
     lines = ['@Engine("%s");' % r.choice(ENGINES), 'A(1); A(2); B(3); B(5);',
